@@ -4,7 +4,7 @@
 # (evidence / replays of the run go to the scratch directory, which is removed); a recorded fix must give exit 1
 SHA=$1; PID=$2; TIER=${3:-quick}; SEED=${4:-}
 SCR=$(mktemp -d /tmp/rev_XXXXXX)
-cp -r /repo/okdmr "$SCR/"
+cp -r "${BASE:-/repo}/okdmr" "$SCR/"
 if ! git -C /repo show "$SHA" --format= -- okdmr | (cd "$SCR" && patch -R -p1 -s) ; then echo "$SHA does not revert cleanly"; rm -rf "$SCR"; exit 3; fi
 VERIF_OUT="$SCR" VERIF_REPO="$SCR" /verif/check "$PID" --tier "$TIER" ${SEED:+--seed $SEED} > "$SCR/out.txt" 2>&1
 RC=$?
